@@ -169,6 +169,15 @@ func judgeC07(c *fw.Ctx, id string, run *batchRun) {
 				c.Violate(id, "batch:slot-holds-other-calls-error", fmt.Sprintf("slot %d (%s) holds %v: %s", i, opid, res.Error, b), b)
 			}
 		}
+		if i == run.OwnCtx && i == 0 && b.Trigger == "own-ctx-reply-held" {
+			// inspected first, while the reply is still held: its own context error
+			// (or, had the reply been faster, its response) are both right
+			c.Count("own_context_calls_checked", 1)
+			if res.Error != nil && !isCtxErr(res.Error) {
+				c.Violate(id, "batch:own-context-error-missing", fmt.Sprintf("slot %d (%s): its own context was cancelled while the reply was held, the batch reports %v: %s", i, opid, res.Error, b), b)
+			}
+			continue
+		}
 		if i == run.OwnCtx && (b.Trigger == "own-ctx-sibling-retried" || b.Trigger == "own-ctx-while-locating") {
 			// its reply is released only after SendBatch has returned: the call
 			// must end with its own context error, nothing else is judged
